@@ -314,7 +314,7 @@ def _unsorted_across(ctx, r):
                 if isinstance(got, list) and got[:1] == ["raises"]:
                     ctx.hist["stepping_back_across_a_tempo_change_rejected"] += 1
                 elif got != "monotone":
-                    e1.report(ctx, "monotone", text, srcp, ["monotone"], got, "resolution %d tempo map %r, %s lines in file order %r (stepping back across a tempo change) are ACCEPTED" % (r, [list(x) for x in tempo], kind, list(order)), extra_case=dict(far=[strict, 0]))
+                    e1.report(ctx, "monotone", text, srcp, ["monotone", ["raises", "ValueError"]], got, "resolution %d tempo map %r, %s lines in file order %r (stepping back across a tempo change) are ACCEPTED" % (r, [list(x) for x in tempo], kind, list(order)), extra_case=dict(far=[strict, 0]))
                 else:
                     ctx.hist["stepping_back_across_a_tempo_change_accepted_and_monotone"] += 1
 
